@@ -107,14 +107,32 @@ def flow_a(ctx, cfgs, mine):
     return len(cases)
 
 
-def judge(ctx, graphs, cases, mine, name, tag):
+CHUNK = 100000
+
+
+def _judge_chunk(ctx, graphs, cases, name):
+    """One Trace_Pipe run over a chunk of cases; graph indices are remapped to the graphs the chunk uses."""
+    used = sorted(set(c["g"] for c in cases))
+    remap = {g: i + 1 for i, g in enumerate(used)}
+    sub = [graphs[g - 1] for g in used]
+    moved = [dict(c, g=remap[c["g"]]) for c in cases]
     path = os.path.join(ctx.workdir, name)
     with open(path, "w") as f:
-        json.dump({"graphs": graphs, "cases": cases}, f)
+        json.dump({"graphs": sub, "cases": moved}, f)
     r = ctx.tlc("Trace_Pipe", "Trace.cfg", env={"TRACE_FILE": path}, workers=16, timeout=3400, heap="14g")
+    os.remove(path)
     got = {x["cid"]: x["verdict"] for x in r.records if "verdict" in x}
     if len(got) != len(cases):
         raise Machinery("trace validation returned %d verdicts for %d cases" % (len(got), len(cases)))
+    return got
+
+
+def judge(ctx, graphs, cases, mine, name, tag):
+    got = {}
+    for lo in range(0, len(cases), CHUNK):
+        part = _judge_chunk(ctx, graphs, cases[lo:lo + CHUNK], "%s.%d" % (name, lo // CHUNK))
+        for i, v in part.items():
+            got[lo + i] = v
     for i, c in enumerate(cases, 1):
         v = got[i]
         if v == ["precondition-false"]:
